@@ -222,6 +222,8 @@ def run_writer(cfg, res):
     mcount = 0
     nrounds = r.randint(2, 8)
     fam = r.choice([0, 0, 1, 2])
+    strict = (case % 4 == 3)
+    memdb.STRICT_TS[0] = strict
     if cfg.get('full'):
       state.cacheTooFull = False
       sender.update(budget=r.choice([100, 300, 600]), cache=cache, chunk=r.choice([3, 8, 20]), series=r.choice([5, 40, 200]), n=0)
@@ -248,6 +250,14 @@ def run_writer(cfg, res):
         else:
           m = 'new%d' % r.randint(1, max(1, mcount))
         cache.store(m, (int(vt.time()) - r.randint(0, 5), 1.0))
+      if strict and r.random() < 0.6:
+        # clients sending milliseconds: series holding a timestamp the backend's 32-bit field cannot take next to good ones
+        for b in range(r.randint(2, 14)):
+          mcount += 1
+          for k in range(r.randint(2, 5)):
+            cache.store('ms%d' % mcount, (int(vt.time()) - k, 1.0))
+          cache.store('ms%d' % mcount, (2 ** 32 + int(vt.time()) * 1000 + b, 1.0))
+        res.count('rounds_with_unrepresentable_timestamps')
       if r.random() < 0.15:
         # a backlog: series that piled up thousands of points each (stalled disk); one update per series and token all the same
         for b in range(r.randint(1, 4)):
